@@ -484,7 +484,7 @@ func (w *writer) clearText() []byte {
 			if n == "" {
 				continue
 			}
-			fmt.Fprintf(&b, "dup %d%s/%s put%s", i, sp(), n, nl())
+			fmt.Fprintf(&b, "dup %d%s/%s put%s", i, sp(), PSName(n), nl())
 		}
 		fmt.Fprintf(&b, "readonly def%s", nl())
 	}
@@ -598,7 +598,7 @@ func (w *writer) privateText() []byte {
 	fmt.Fprintf(&b, "%s\n", w.nd())
 	fmt.Fprintf(&b, "2 index /CharStrings %d dict dup begin\n", len(css)+w.pick(3))
 	for _, c := range css {
-		w.rdEntry(&b, "/"+c.name, c.data, w.nd())
+		w.rdEntry(&b, "/"+PSName(c.name), c.data, w.nd())
 	}
 	fmt.Fprintf(&b, "end%send%sreadonly put%snoaccess put%s", nl(), nl(), nl(), nl())
 	if w.pick(2) == 0 {
